@@ -155,7 +155,7 @@ def extract(units, only=None):
 
     def one(item):
         u, out = item
-        tmpd = out + ".d"
+        tmpd = out + ".%d.d" % os.getpid()
         os.makedirs(tmpd, exist_ok=True)
         r = run([NLX, "-p", os.path.join(CACHE, "db"), "--out", tmpd, u["file"]])
         produced = os.path.join(tmpd, unit_key(u["file"]) + ".jsonl")
@@ -178,19 +178,29 @@ def extract(units, only=None):
             if p in keep or not fn.endswith(".jsonl"):
                 continue
             for u, _ in stale:
+                # superseded version of a re-extracted unit; keep recent ones, a concurrent check may still read them
                 if fn.startswith(unit_key(u["file"]) + "-"):
                     try:
-                        os.remove(p)
+                        if time.time() - os.path.getmtime(p) > 900:
+                            os.remove(p)
                     except OSError:
                         pass
     return result
 
 
 def prepare(only=None):
+    """Serialised across processes: the private build directory and the fact cache are shared."""
+    import fcntl
     t0 = time.time()
-    configure()
-    units = compdb()
-    facts = extract(units, only)
+    os.makedirs(CACHE, exist_ok=True)
+    with open(os.path.join(CACHE, "prep.lock"), "w") as lk:
+        fcntl.flock(lk, fcntl.LOCK_EX)
+        try:
+            configure()
+            units = compdb()
+            facts = extract(units, only)
+        finally:
+            fcntl.flock(lk, fcntl.LOCK_UN)
     return units, facts, time.time() - t0
 
 
